@@ -49,11 +49,15 @@ def class_of(a, omega):
     return T.POS if a in T.POS else (T.NEG if a in T.NEG else T.NEUT)
 
 
-def transform(I, vs, tname, omega=False):
+def transform(I, vs, tname, omega=False, fixed_inversion=False):
     """SymStr of T(s) over the variables of s plus fresh choice variables; returns (SymStr, extra vars)"""
     N = len(vs)
     extra = []
     chars = []
+    if tname == "invert" and fixed_inversion:
+        # deterministic K<->E, R<->D exchange (long sequences: keeps every guard a function of one input variable)
+        swap = {"K": "E", "E": "K", "R": "D", "D": "R"}
+        return SymStr([mk_fd([(v == i, swap.get(a, a)) for i, a in enumerate(AA)]) for v in vs]), extra
     if tname == "reverse":
         return SymStr([FD([(v == i, a) for i, a in enumerate(AA)]) for v in reversed(vs)]), extra
     for i, v in enumerate(vs):
@@ -108,11 +112,14 @@ def run_item(item):
             I.solver.add(composition(vs, a, b))
         elif kind == "omega":
             I.solver.add(count(in_set(v, OMEGA_IN) for v in vs) == item["j"])
-        s2, extra = transform(I, vs, tname, omega)
+        s2, extra = transform(I, vs, tname, omega, fixed_inversion=bool(item.get("dmax_only")))
 
         def cex(m, tname=tname, extra=extra):
             seq = seq_of_model(m, vs)
             us = [m.eval(u, model_completion=True).as_long() for u in extra]
+            if tname == "invert" and item.get("dmax_only"):
+                sw = {"K": "E", "E": "K", "R": "D", "D": "R"}
+                return dict(seq=seq, transform=tname, seq2="".join(sw.get(c, c) for c in seq), kind=kind)
             return dict(seq=seq, transform=tname, seq2=concrete_transform(seq, tname, us, omega), kind=kind)
 
         def num(x):
